@@ -289,7 +289,8 @@ def status_exists_provenance(ck: Checker, rule: str) -> None:
 
 def text_ratio_exact(ck: Checker, rule: str) -> None:
     fn = ck.prog.func("hashfile.istextfile", "istextblock")
-    cmps = [x for x in walk_own(fn.node) if isinstance(x, ast.Compare) and len(x.ops) == 1 and isinstance(x.ops[0], (ast.LtE, ast.Lt, ast.Gt, ast.GtE)) and any(isinstance(y, ast.Call) and call_name(y) == "len" for y in ast.walk(x))]
+    in_assert = {id(y) for a_ in walk_own(fn.node) if isinstance(a_, ast.Assert) for y in ast.walk(a_)}  # sanity assertions decide nothing
+    cmps = [x for x in walk_own(fn.node) if isinstance(x, ast.Compare) and id(x) not in in_assert and len(x.ops) == 1 and isinstance(x.ops[0], (ast.LtE, ast.Lt, ast.Gt, ast.GtE)) and any(isinstance(y, ast.Call) and call_name(y) == "len" for y in ast.walk(x))]
     ck.floor(rule, len(cmps), 1, "threshold comparison in istextblock")
     for x in cmps:
         floor = any(isinstance(y, ast.BinOp) and isinstance(y.op, ast.FloorDiv) for y in ast.walk(x))
